@@ -53,7 +53,7 @@ def _run_cvc5(txt, timeout_s, want_model):
         f.write(body)
         path = f.name
     try:
-        p = subprocess.run(["/usr/bin/cvc5", f"--tlimit={int(timeout_s*1000)}", "--strings-exp", path],
+        p = subprocess.run(["/usr/bin/cvc5", f"--tlimit={int(timeout_s*1000)}", "--strings-exp", "--fp-exp", path],
                            capture_output=True, text=True, timeout=timeout_s + 5)
         out = p.stdout.strip()
     except subprocess.TimeoutExpired:
@@ -100,15 +100,18 @@ def discharge(obls, timeout_s=10, want_model=True, parallel=True):
     """obls: list of (name, hyps, goal).  Returns list of result dicts in order."""
     jobs = []
     results = [None] * len(obls)
-    for i, (name, hyps, goal) in enumerate(obls):
+    for i, ob in enumerate(obls):
+        name, hyps, goal = ob[0], ob[1], ob[2]
+        tmo = ob[3] if len(ob) > 3 and ob[3] else timeout_s
         if z3.is_true(z3.simplify(goal)):
             results[i] = {"name": name, "verdict": "discharged", "backend": "simplify", "time": 0.0, "model": None, "log": []}
             continue
-        jobs.append((i, (name, to_smt2(hyps, goal), timeout_s, want_model)))
+        jobs.append((i, (name, to_smt2(hyps, goal), tmo, want_model)))
     if not parallel or len(jobs) <= 1:
         for i, j in jobs:
             results[i] = solve_one(j)
     else:
+        jobs.sort(key=lambda ij: (0 if _has_fp(ij[1][1]) else 1, -len(ij[1][1])))
         for (i, _), r in zip(jobs, pool().map(solve_one, [j for _, j in jobs])):
             results[i] = r
     return results
